@@ -5,6 +5,7 @@ import (
 	"math/rand"
 	"os"
 	"runtime"
+	"strconv"
 	"strings"
 
 	"verif/harness/internal/hx"
@@ -198,7 +199,14 @@ func genCase(rng *rand.Rand, variant string, progs [][]call, style int) hx.Case 
 
 // dfs enumerates every schedule of progs with at most `bound` preemptions (a switch away from a
 // goroutine that could still run and is not blocked), re-executing the prefix for every node.
-func dfs(variant string, progs [][]call, bound int, emit func(hx.Case), limit *int) {
+func dfs(variant string, progs [][]call, bound int, emit0 func(hx.Case), limit *int) {
+	tag := "dfs:" + strings.TrimPrefix(caseLine("", progs), "case gsync  | ")
+	emit := func(c hx.Case) {
+		if os.Getenv("VERIF_DFSTAGS") != "" {
+			c.Tags = append(c.Tags, tag)
+		}
+		emit0(c)
+	}
 	// iterative deepening on the number of preemptions: all schedules with 0, then exactly 1, then
 	// exactly 2, ... preemptions, so that the limit cuts off the least likely schedules first
 	for b := 0; b <= bound; b++ {
@@ -207,16 +215,30 @@ func dfs(variant string, progs [][]call, bound int, emit func(hx.Case), limit *i
 }
 
 func dfsExact(variant string, progs [][]call, bound int, emit func(hx.Case), limit *int) {
-	var rec func(prefix []int, last int, used int)
-	rec = func(prefix []int, last int, used int) {
-		if *limit <= 0 {
-			return
-		}
+	// build re-executes a prefix from scratch
+	build := func(prefix []int) (*driver, bool) {
 		d := newDriver(variant, progs)
 		blockedLast := false
 		for _, t := range prefix {
 			out := d.do(fmt.Sprintf("gs step %d", t))
 			blockedLast = strings.HasPrefix(out, "blocked")
+		}
+		return d, blockedLast
+	}
+	// rec visits the node `prefix`. d, when not nil, is a driver that has executed exactly prefix
+	// (handed down from the parent to its FIRST child, so that a schedule costs one execution from
+	// its last branching point instead of one execution per node); the other children re-execute.
+	// Same nodes, same order, same cases as re-executing at every node.
+	var rec func(d *driver, blockedLast bool, prefix []int, last int, used int)
+	rec = func(d *driver, blockedLast bool, prefix []int, last int, used int) {
+		if *limit <= 0 {
+			if d != nil {
+				d.g.s.Kill()
+			}
+			return
+		}
+		if d == nil {
+			d, blockedLast = build(prefix)
 		}
 		live := d.live()
 		if len(live) == 0 || len(prefix) >= 60 {
@@ -231,11 +253,12 @@ func dfsExact(variant string, progs [][]call, bound int, emit func(hx.Case), lim
 			emit(hx.Case{Domain: true, Nontrivial: true, Lines: d.lines, Tags: []string{"dfs"}})
 			return
 		}
-		d.g.s.Kill()
 		lastLive := false
 		for _, x := range live {
 			lastLive = lastLive || x == last
 		}
+		type kid struct{ t, cost int }
+		var kids []kid
 		for _, t := range live {
 			cost := 0
 			if lastLive && t != last && !blockedLast {
@@ -247,10 +270,23 @@ func dfsExact(variant string, progs [][]call, bound int, emit func(hx.Case), lim
 			if used+cost > bound {
 				continue
 			}
-			rec(append(append([]int{}, prefix...), t), t, used+cost)
+			kids = append(kids, kid{t, cost})
+		}
+		if len(kids) == 0 {
+			d.g.s.Kill()
+			return
+		}
+		for i, k := range kids {
+			np := append(append([]int{}, prefix...), k.t)
+			if i == 0 {
+				out := d.do(fmt.Sprintf("gs step %d", k.t))
+				rec(d, strings.HasPrefix(out, "blocked"), np, k.t, used+k.cost)
+			} else {
+				rec(nil, false, np, k.t, used+k.cost)
+			}
 		}
 	}
-	rec(nil, -1, 0)
+	rec(nil, false, nil, -1, 0)
 }
 
 var dfsPrograms = [][][]call{
@@ -268,11 +304,29 @@ var dfsPrograms = [][][]call{
 	{{{"a", 1}, {"a", -1}}, {{"w", 0}, {"c", 0}}, {{"a", 2}, {"a", -2}}},
 	{{{"a", 1}, {"w", 0}, {"a", -1}}, {{"a", 1}, {"a", -1}}},
 	{{{"a", 2}, {"a", -1}, {"a", -1}}, {{"w", 0}, {"w", 0}}, {{"a", 1}, {"a", -1}}},
+	// a Wait that starts after its goroutine's own increment returned (the count is >= 1 for the
+	// whole interval, whatever the others do) next to a goroutine crossing zero: a release that is
+	// decided on a stale view (a retry loop that keeps a decision of a failed attempt) closes the
+	// live channel
+	{{{"a", 1}, {"a", -1}}, {{"a", 1}, {"w", 0}}},
+	// four and more edge transitions (0->1, 1->0, 0->1, ...) spread over three goroutines, the
+	// last one keeps the count at 1 and then waits: a release that acts late (after the critical
+	// section) meets a later cycle
+	{{{"a", 1}, {"a", -1}}, {{"a", 1}, {"a", -1}}, {{"a", 1}, {"w", 0}}},
+}
+
+// dfsProgramsThorough: enumerated in the thorough tier only (and by the widened search after a
+// broken lock-step).
+var dfsProgramsThorough = [][][]call{
+	{{{"a", 1}, {"a", -1}}, {{"a", 1}, {"a", -1}}, {{"a", 1}, {"a", -1}}, {{"w", 0}, {"c", 0}, {"w", 0}}},
+	{{{"a", 1}, {"a", -1}, {"a", 1}, {"a", -1}}, {{"a", 1}, {"a", -1}, {"a", 1}, {"w", 0}}},
+	{{{"a", 1}, {"w", 0}, {"a", -1}}, {{"a", 1}, {"w", 0}, {"a", -1}}, {{"c", 0}, {"w", 0}}},
+	{{{"a", 2}, {"a", -2}}, {{"a", 1}, {"a", 1}, {"a", -2}, {"w", 0}}, {{"a", 0}, {"w", 0}}},
 }
 
 func runGSync(f *hx.Flags) {
 	impl := &gImpl{}
-	r := hx.NewRunner(f, "h-gsync", impl, "client programs of 2-4 goroutines x 1-4 calls (Add +/-n, Wait, Count; each goroutine only decrements what it incremented), run under the cooperative scheduler on an instrumented copy of /repo/gsync: uniformly random schedules, burst schedules, and every schedule with <=2 (quick) / <=3 (thorough) preemptions of four fixed 2-3 goroutine programs; after EVERY step label class, counter, installed channel, closed channels, lock holder, per-goroutine call status, return values, Wait results with closed-ness and zero-seen flags are compared with Model/GSync.step; Count()/Wait() probes at rest. An implementation-side monitor evaluates C01/C02 exactly as worded. non-trivial: >=2 goroutines with at least one Wait and one Add; distinct by (program, schedule)")
+	r := hx.NewRunner(f, "h-gsync", impl, "client programs of 2-4 goroutines x 1-4 calls (Add +/-n, Wait, Count; each goroutine only decrements what it incremented), run under the cooperative scheduler on an instrumented copy of /repo/gsync: uniformly random schedules, burst schedules, and every schedule with <=2 (quick) / <=3 (thorough) preemptions of twelve (thorough: sixteen) fixed 2-4 goroutine programs (a decrement is admitted once the increments that have returned, or the implementation's counter, cover it); after EVERY step label class, counter, installed channel, closed channels, lock holder, per-goroutine call status, return values, Wait results with closed-ness and zero-seen flags are compared with Model/GSync.step; Count()/Wait() probes at rest. An implementation-side monitor evaluates C01/C02 exactly as worded. non-trivial: >=2 goroutines with at least one Wait and one Add; distinct by (program, schedule)")
 	r.TieOnly = true
 	r.ImplVerdict = func(l string) string {
 		if i := strings.Index(l, " mon="); i >= 0 {
@@ -314,7 +368,7 @@ func runGSync(f *hx.Flags) {
 	}
 	r.RunCorpus()
 	variant := "cur"
-	nprog, nsched, bound, limit := r.N(700), 6, 2, 8000
+	nprog, nsched, bound, limit := r.N(700), 6, 2, 12000
 	if f.Tier == "thorough" {
 		nprog, nsched, bound, limit = r.N(12000), 12, 3, 300000
 	}
@@ -324,7 +378,14 @@ func runGSync(f *hx.Flags) {
 			r.Add(genCase(r.Rng, variant, progs, j%3))
 		}
 	}
-	for _, progs := range dfsPrograms {
+	if v, err := strconv.Atoi(os.Getenv("VERIF_DFSLIMIT")); err == nil && v > 0 {
+		limit = v // experiments: schedules per enumerated program
+	}
+	enum := dfsPrograms
+	if f.Tier == "thorough" {
+		enum = append(append([][][]call{}, dfsPrograms...), dfsProgramsThorough...)
+	}
+	for _, progs := range enum {
 		lim := limit
 		dfs(variant, progs, bound, r.Add, &lim)
 	}
@@ -345,8 +406,9 @@ func runGSync(f *hx.Flags) {
 		if f.Tier == "thorough" {
 			lim, nrand = 300000, 3000
 		}
-		for _, progs := range dfsPrograms {
-			l := lim / len(dfsPrograms)
+		wide := append(append([][][]call{}, dfsPrograms...), dfsProgramsThorough...)
+		for _, progs := range wide {
+			l := lim / len(wide)
 			dfs(variant, progs, 3, r.Add, &l)
 			r.Flush()
 		}
